@@ -26,7 +26,7 @@ func nodeMethodCall(in ssa.Instruction, name string) (*ssa.Call, bool) {
 		return nil, false
 	}
 	f := c.Common().StaticCallee()
-	if f == nil || recvTypeName(f) != "Node" || f.Name() != name {
+	if f == nil || recvTypeName(f) != "Node" || fname(f) != name {
 		return nil, false
 	}
 	return c, true
@@ -49,7 +49,7 @@ func isNameOfNode(v, c ssa.Value) bool {
 			}
 		}
 	}
-	if call, ok := c.(*ssa.Call); ok && call.Common().StaticCallee() != nil && call.Common().StaticCallee().Name() == "newNode" {
+	if call, ok := c.(*ssa.Call); ok && call.Common().StaticCallee() != nil && fname(call.Common().StaticCallee()) == "newNode" {
 		return sameVar(call.Common().Args[0], v)
 	}
 	return false
@@ -90,7 +90,7 @@ func rulePAIR1(w *World) []Ob {
 					continue
 				}
 				lc, ok := stripConv(tv).(*ssa.Call)
-				if !ok || lc.Common().StaticCallee() == nil || lc.Common().StaticCallee().Name() != "findChildByText" {
+				if !ok || lc.Common().StaticCallee() == nil || fname(lc.Common().StaticCallee()) != "findChildByText" {
 					continue
 				}
 				if sameVar(lc.Common().Args[0], parent) && isNameOfNode(lc.Common().Args[1], child) {
@@ -190,7 +190,7 @@ func rulePAIR2(w *World) []Ob {
 			}
 			// level: newNode(_, parent.hierarchy+1, _) or guard child.isDirectlyUnder(parent)
 			levelOK := false
-			if call, ok := resolve(child).(*ssa.Call); ok && call.Common().StaticCallee() != nil && call.Common().StaticCallee().Name() == "newNode" {
+			if call, ok := resolve(child).(*ssa.Call); ok && call.Common().StaticCallee() != nil && fname(call.Common().StaticCallee()) == "newNode" {
 				if b, ok := call.Common().Args[1].(*ssa.BinOp); ok && b.Op.String() == "+" {
 					if k, isC := constInt(b.Y); isC && k == 1 {
 						if _, f, ok := fieldOfLoad(b.X); ok && f == "hierarchy" {
@@ -201,7 +201,7 @@ func rulePAIR2(w *World) []Ob {
 			}
 			for _, g := range guardsOf(ac.Block()) {
 				c, pol := flattenCond(g.Cond, g.Pol)
-				if call, ok := c.(*ssa.Call); ok && pol && call.Common().StaticCallee() != nil && call.Common().StaticCallee().Name() == "isDirectlyUnder" {
+				if call, ok := c.(*ssa.Call); ok && pol && call.Common().StaticCallee() != nil && fname(call.Common().StaticCallee()) == "isDirectlyUnder" {
 					if sameVar(call.Common().Args[0], child) && sameVar(call.Common().Args[1], parent) {
 						levelOK = true
 					}
@@ -217,7 +217,7 @@ func rulePAIR2(w *World) []Ob {
 					if ci >= 0 && pi >= 0 && ci < len(args) && pi < len(args) {
 						for _, g := range guardsOf(site.Block()) {
 							c, pol := flattenCond(g.Cond, g.Pol)
-							if call, ok := c.(*ssa.Call); ok && pol && call.Common().StaticCallee() != nil && call.Common().StaticCallee().Name() == "isDirectlyUnder" {
+							if call, ok := c.(*ssa.Call); ok && pol && call.Common().StaticCallee() != nil && fname(call.Common().StaticCallee()) == "isDirectlyUnder" {
 								if sameVar(call.Common().Args[0], args[ci]) && sameVar(call.Common().Args[1], args[pi]) {
 									levelOK = true
 								}
@@ -457,7 +457,7 @@ func rulePAIR3(w *World) []Ob {
 						}
 					}
 					pres := par.Signature.Results()
-					if passes && par.Parent() == nil && pres.Len() > 0 && !types.NewVar(0, nil, par.Name(), nil).Exported() {
+					if passes && par.Parent() == nil && pres.Len() > 0 && !types.NewVar(0, nil, fname(par), nil).Exported() {
 						last := pres.At(pres.Len() - 1).Type()
 						if b, isB := last.Underlying().(*types.Basic); isErrorType(last) || (isB && b.Kind() == types.Bool) {
 							callers(par, depth+1)
@@ -485,7 +485,7 @@ func mergeSide(r ssa.Instruction) bool {
 	for _, g := range guardsOf(r.Block()) {
 		tv, nonNil, ok := nilTest(g.Cond, g.Pol)
 		if ok && nonNil {
-			if c, ok := stripConv(tv).(*ssa.Call); ok && c.Common().StaticCallee() != nil && c.Common().StaticCallee().Name() == "findChildByText" {
+			if c, ok := stripConv(tv).(*ssa.Call); ok && c.Common().StaticCallee() != nil && fname(c.Common().StaticCallee()) == "findChildByText" {
 				return true
 			}
 		}
@@ -721,7 +721,7 @@ func rulePAIR4(w *World) []Ob {
 							guard = "nil"
 						}
 						c, pol := flattenCond(gd.Cond, gd.Pol)
-						if call, ok := c.(*ssa.Call); ok && !pol && call.Common().StaticCallee() != nil && call.Common().StaticCallee().Name() == "isRoot" && guard == "" {
+						if call, ok := c.(*ssa.Call); ok && !pol && call.Common().StaticCallee() != nil && fname(call.Common().StaticCallee()) == "isRoot" && guard == "" {
 							guard = "notroot"
 						}
 					}
@@ -769,7 +769,7 @@ func rulePAIR5(w *World) []Ob {
 		// functions that call summary(): the per-root report assembly
 		var sums []*ssa.Call
 		allInstrs(fn, func(in ssa.Instruction) {
-			if c, ok := in.(*ssa.Call); ok && c.Common().StaticCallee() != nil && c.Common().StaticCallee().Name() == "summary" && strings.Contains(recvTypeName(c.Common().StaticCallee()), "olorize") {
+			if c, ok := in.(*ssa.Call); ok && c.Common().StaticCallee() != nil && fname(c.Common().StaticCallee()) == "summary" && strings.Contains(recvTypeName(c.Common().StaticCallee()), "olorize") {
 				sums = append(sums, c)
 			}
 		})
@@ -785,7 +785,7 @@ func rulePAIR5(w *World) []Ob {
 				if !ok || c.Common().StaticCallee() == nil {
 					continue
 				}
-				switch c.Common().StaticCallee().Name() {
+				switch fname(c.Common().StaticCallee()) {
 				case "reset":
 					resets = append(resets, c)
 				case "spreadBranch":
@@ -812,7 +812,7 @@ func rulePAIR5(w *World) []Ob {
 		// colorize is called exactly once per node on every path of the printing function
 		var cols []*ssa.Call
 		allInstrs(fn, func(in ssa.Instruction) {
-			if c, ok := in.(*ssa.Call); ok && c.Common().StaticCallee() != nil && c.Common().StaticCallee().Name() == "colorize" {
+			if c, ok := in.(*ssa.Call); ok && c.Common().StaticCallee() != nil && fname(c.Common().StaticCallee()) == "colorize" {
 				cols = append(cols, c)
 			}
 		})
@@ -826,7 +826,7 @@ func rulePAIR5(w *World) []Ob {
 			}
 		}
 		// colorize increments exactly one counter, chosen by isFile
-		if fn.Name() == "colorize" && strings.Contains(recvTypeName(fn), "olorize") {
+		if fname(fn) == "colorize" && strings.Contains(recvTypeName(fn), "olorize") {
 			var isFile *ssa.Call
 			nexts := map[string]bool{}
 			allInstrs(fn, func(in ssa.Instruction) {
@@ -834,7 +834,7 @@ func rulePAIR5(w *World) []Ob {
 				if !ok || c.Common().StaticCallee() == nil {
 					return
 				}
-				switch c.Common().StaticCallee().Name() {
+				switch fname(c.Common().StaticCallee()) {
 				case "isFile":
 					isFile = c
 				case "next":
@@ -919,9 +919,9 @@ func rulePAIR6(w *World) []Ob {
 			}
 			isCtor := false
 			what := ""
-			if f := c.Common().StaticCallee(); f != nil && f.Name() == "NewEncoder" && !p.InModule(f) {
+			if f := c.Common().StaticCallee(); f != nil && fname(f) == "NewEncoder" && !p.InModule(f) {
 				// the constructor inside the factory closure itself is fine; what matters is where the factory is invoked
-				if fn.Parent() != nil && strings.HasPrefix(fn.Parent().Name(), "new") {
+				if fn.Parent() != nil && strings.HasPrefix(fname(fn.Parent()), "new") {
 					return
 				}
 				isCtor, what = true, f.String()
@@ -937,7 +937,7 @@ func rulePAIR6(w *World) []Ob {
 			n++
 			construct := num.name("encoder construction " + what)
 			// the encoder is used as constructed: nothing but Encode (and Close) is called on it
-			if f := c.Common().StaticCallee(); f != nil && f.Name() == "NewEncoder" {
+			if f := c.Common().StaticCallee(); f != nil && fname(f) == "NewEncoder" {
 				cfgCall := ""
 				for _, v := range append([]ssa.Value{c}, cellLoadsOfValue(c)...) {
 					if v.Referrers() == nil {
@@ -1295,7 +1295,7 @@ func reachableAvoidingLinks(fn *ssa.Function, r *ssa.Return, adds []*ssa.Call) b
 		if !ok {
 			return
 		}
-		if c, ok := stripConv(tv).(*ssa.Call); ok && c.Common().StaticCallee() != nil && c.Common().StaticCallee().Name() == "findChildByText" {
+		if c, ok := stripConv(tv).(*ssa.Call); ok && c.Common().StaticCallee() != nil && fname(c.Common().StaticCallee()) == "findChildByText" {
 			if nonNil {
 				stop[iff.Block().Succs[0]] = true
 			} else {
